@@ -36,6 +36,7 @@ type Lemma struct {
 	Name   string
 	Mod    string
 	Induct string
+	Lower  *SX // induction on an Int x: base case x <= Lower (default 0), step x > Lower with the hypothesis at x-1
 	Uses   []string
 	Body   *SX // (forall (...) body) or plain body
 	Props  []string
@@ -66,6 +67,9 @@ func loadSpecs(dir string, U *Universe) (*SpecSet, error) {
 	// core functions of the prelude
 	ss.Funs["Out.str"] = SpecFun{Name: "Out.str", Args: []string{"Out"}, Ret: "Str"}
 	ss.Funs["Str.cat"] = SpecFun{Name: "Str.cat", Args: []string{"Str", "Str"}, Ret: "Str"}
+	ss.Funs["strings.ReplaceAll"] = SpecFun{Name: "strings.ReplaceAll", Args: []string{"Str", "Str", "Str"}, Ret: "Str"}
+	ss.Funs["strings.TrimLeft"] = SpecFun{Name: "strings.TrimLeft", Args: []string{"Str", "Str"}, Ret: "Str"}
+	ss.Funs["strconv.FormatUint"] = SpecFun{Name: "strconv.FormatUint", Args: []string{"Int", "Int"}, Ret: "Str"}
 	files, _ := filepath.Glob(filepath.Join(dir, "*.smt2"))
 	sort.Strings(files)
 	for _, f := range files {
@@ -190,6 +194,9 @@ func (ss *SpecSet) parseModule(name, src string) (*SpecModule, error) {
 				switch f.List[i].Atom {
 				case ":induction":
 					l.Induct = f.List[i+1].Atom
+					i += 2
+				case ":lower":
+					l.Lower = f.List[i+1]
 					i += 2
 				case ":uses":
 					for _, u := range f.List[i+1].List {
